@@ -56,9 +56,10 @@ class Gen:
 class HistoryMonitor:
     """Online checker: one ``observe`` per generation, in history order."""
 
-    def __init__(self, ctx, u, icls, coords, history, model=None):
+    def __init__(self, ctx, u, icls, coords, history, model=None, mkind=None):
         self.ctx, self.u = ctx, numpy.asarray(u, dtype=float)
         self.model = model
+        self.mkind = "" if not mkind or mkind.startswith("plain") else ", " + mkind   # model class as part of the input class
         self.icls, self.coords, self.history = icls, coords, history
         self.gens = []
         self.env = {}        # (view, scaling) -> tightest earlier limits per trait and the generations that set them
@@ -239,7 +240,7 @@ class HistoryMonitor:
         fr = G.info.get(("frequency", sc, kind))
         if view == "frequency" or (fr is not None and fr[1]):
             # wrong already when handed the correctly rounded frequency vector: the input form does not matter
-            return numpy_site, "any input form"
+            return numpy_site, "any input form" + self.mkind
         if view in G.afreq:
             p, acls = G.afreq[view]
             p = numpy.asarray(p, dtype=float)
